@@ -223,6 +223,24 @@ func runFixtures(vdir string) (map[string]string, error) {
 					got = true
 				}
 			}
+		case strings.HasPrefix(rest, "PrivBuf"):
+			engine = "private memory"
+			eachInstr(f, func(in ssa.Instruction) {
+				if call, ok := in.(*ssa.Call); ok && call.Call.IsInvoke() && call.Call.Method.Name() == "Read" {
+					if privateBuffer(f, call.Call.Args[0], 0) != "" {
+						got = true
+					}
+				}
+			})
+		case strings.HasPrefix(rest, "Uncond"):
+			engine = "unconditional effect"
+			eachInstr(f, func(in ssa.Instruction) {
+				if call, ok := in.(*ssa.Call); ok && calleeShort(&call.Call) == "sink" {
+					if !unconditional(f, in) {
+						got = true
+					}
+				}
+			})
 		case strings.HasPrefix(rest, "AcceptCarrier"):
 			engine = "accept to handler"
 			got = !helperOnlyInspects(f, 0, 0)
